@@ -23,7 +23,8 @@ LabToks == {"t", "tt", "ttt"}
 ParamSets == {<<"r", "rx", "r_">>, <<"rx", "r", "r1">>, <<"tt", "t", "t2">>, <<"r", "t", "r_1">>, <<"k", "r", "t">>, <<"t", "rx", "r">>}
 
 \* arguments: registers, labels, and bracketed memory operands (several tokens)
-ArgToks == {<<"ax">>, <<"bx">>, <<"cx">>, <<"t">>, <<"tt">>, <<"ttt">>, <<"word", "[", "bx", "]">>, <<"word", "[", "bp", ",", "si", ",", "2", "]">>}
+ArgToks == {<<"ax">>, <<"bx">>, <<"cx">>, <<"t">>, <<"tt">>, <<"ttt">>, <<"word", "[", "bx", "]">>, <<"word", "[", "bp", ",", "si", ",", "2", "]">>,
+            <<"7">>, <<"40000">>, <<"0xFFFF">>, <<"0b1000000000000000">>}
 RegParams == {"r", "rx", "r_", "r1", "r_1"}
 \* macros are named in a fixed order; a body may use the macros defined so far (most uses), itself or the
 \* next one (cycles, forward references) and a macro passed in through parameter k
@@ -34,6 +35,9 @@ UnitsFor(params, defined, selfnext) ==
       mem1 == <<"word", "[", "bx", "]">>
   IN {[k |-> "ins", toks |-> <<"inc", x>>] : x \in RegToksAll \cup (ps \cap RegParams)}
      \cup {[k |-> "ins", toks |-> <<"jmp", y>>] : y \in LabToks}
+     \* a parameter in an unsigned constant position (logic immediate, shift count) and in a signed one
+     \cup {[k |-> "ins", toks |-> <<"and", "dx", ",", x>>] : x \in ps \cap RegParams}
+     \cup {[k |-> "ins", toks |-> <<"mov", "cx", ",", x>>] : x \in ps \cap RegParams}
      \cup {[k |-> "use", name |-> n, args |-> <<a, b, c>>] : n \in defined,
              a \in {<<"bx">>, <<params[1]>>}, b \in {<<"t">>, <<params[2]>>}, c \in {mem1, <<params[3]>>}}
      \cup {[k |-> "use", name |-> n, args |-> <<<<params[1]>>, <<"tt">>, c>>] : n \in selfnext \cup (ps \cap {"k"}), c \in {mem1, <<params[3]>>}}
@@ -100,7 +104,7 @@ C13Laws ==
        \* whole-word substitution: no parameter of the used macro survives unless an argument put it there,
        \* and longer words containing a parameter name are untouched
        /\ (r.err = "" /\ use.name \in Names(lib) =>
-             \A i \in 1 .. Len(r.code) : Len(r.code[i]) >= 2 /\ r.code[i][1] \in {"inc", "jmp"})
+             \A i \in 1 .. Len(r.code) : Len(r.code[i]) >= 2 /\ r.code[i][1] \in {"inc", "jmp", "and", "mov"})
        /\ r.err \in {"", "unknown", "recursive", "arity"}
 
 \* direct statements of the substitution rule on hand-written cases
